@@ -75,6 +75,9 @@ CHECKS = {
                           "monitor_captured_bus_message", "monitor_captured_client_message", "bus_message_refused_by_receive_policy", "unicast_refused", "dest_missing"], safety_prop="C10"),
     "C15": simbus("C15", RULE % "C15 (method calls and signals carrying 0 to beyond-the-maximum descriptors, header count smaller / equal / larger than attached, descriptors riding on the first or a later byte, senders and recipients with and without negotiated descriptor passing, policies refusing by interface or descriptor count, missing destinations, the bus itself as destination, closes of sender or recipient right behind a message, stalled recipients, small per-message and incoming limits, pending_fd_timeout by clock)",
                   probes=["fd_message_sent", "fd_message_received", "fds_without_negotiation", "fewer_fds_than_announced", "more_fds_than_allowed", "surplus_fds_sent", "pending_fd_timeout_fired", "unicast_refused", "dest_missing"], safety_prop="C15"),
+    "C19": simbus("C19", RULE % "C19 (several senders auto-starting and StartServiceByName-ing the same and different activatable names concurrently, with NO_AUTO_START and NO_REPLY variants, unicast signals; a scripted service process per fork that reports in, exits with status 0 / non-zero / by signal, or fails to exec, at arbitrary points; some connection taking the name quickly, late, never, or another name; service_start_timeout by clock; closes of waiting senders)",
+                  probes=["activation_started", "activation_joined_pending", "activation_completed", "held_message_released", "several_held_messages_released", "activation_failed_exit", "activation_failed_exec",
+                          "activation_failed_timeout", "activation_failure_several_waiters", "start_already_running", "start_unknown_service", "service_exit_status_0", "held_message_of_vanished_sender_dropped"], safety_prop="C10"),
     "C14": dict(simbus("C14", "for each sampled (history, operation) pair generated from mix(VERIF_SEED, i): one fault-free execution counts the allocations n the bus makes while processing the "
                   "operation, then the whole plan is re-executed n times with allocation k = 0..n-1 of that operation failing (exhaustive in k, sampled in history and operation); an "
                   "evaluation is one (history, operation, k) execution; distinct = distinct trace hash; non-trivial = the injected failure fired and the outcome was compared with both admissible worlds",
@@ -195,6 +198,20 @@ MANIFEST_TEXT = {
                "virtual time once left alone (bounded liveness); the simulated kernel's ledger of every descriptor number installed into the daemon shows each closed exactly once "
                "(no leak after the connections are gone and the bus is shut down, no double close), and no descriptor reaches a client without a message announcing it.",
                "DESIGN.md section 4 C15", "deterministic simulation, seeded history and fault search, model-based oracle plus descriptor ledger in the simulated kernel"),
+    "C19": _mt("Seeded search over activation histories through the real daemon with generated service files in a scratch <servicedir>: several senders auto-starting (method calls, "
+               "unicast signals, NO_AUTO_START / NO_REPLY variants) and StartServiceByName-ing the same and different activatable names concurrently; the simulated kernel's fork() hands "
+               "the harness a scripted babysitter / service process per start (what would be exec'ed is recorded at the spawn seam) that reports in, exits with status 0 / non-zero / by "
+               "signal or fails to exec at arbitrary quiescent points; some connection takes the name quickly, late, never, or another name; service_start_timeout fires by virtual clock; "
+               "waiting senders close. Oracle (bus model extended with pending activations): the number of processes started equals the number of activations that needed one (a second "
+               "waiter joins the pending activation) and each runs the program its service file names; once the name is taken every held message is delivered exactly once, in arrival "
+               "order, before the RequestName reply, and StartServiceByName callers get START_REPLY_SUCCESS (ALREADY_RUNNING when owned, an error without a service file); on exec "
+               "failure, non-zero exit, death by signal or timeout every waiting method call gets exactly one error and nothing is delivered later; exit status 0 is not a failure; "
+               "bounded liveness: left alone for one service_start_timeout every pending activation has ended in errors.",
+               "DESIGN.md section 4 C19", "deterministic simulation, seeded history / process-fate / clock search, model-based oracle on recorded history",
+               note="Trusted base: simulated kernel incl. the scripted child side of dbus-spawn-unix.c's babysitter protocol (CHILD_PID / CHILD_EXITED / CHILD_EXEC_FAILED), the bus model. "
+                    "Process events and clock advances are injected at quiescent points so that their order against client traffic is unambiguous. NOT covered: the setuid activation "
+                    "helper clause of the statement (bus/activation-helper.c name / service-file validation) - no simhelper binary was built - and activation under a restrictive policy or "
+                    "with <servicehelper>. Sampling: evidence, not proof."),
     "C20": _mt("Seeded search over histories: the application of a real DBusConnection registers, registers as fallback and unregisters handlers on generated path sets (shared prefixes, "
                "adjacent sibling names, the root) while a scripted peer sends method calls, signals, Introspect and Peer.Ping to paths inside, beside and below them through the simulated "
                "socket (short reads / writes, EINTR); handlers decline, handle, stay silent, ask for memory once, unregister themselves or the handler that would be offered next, or "
@@ -233,6 +250,6 @@ NOT_APPLICABLE = [
 ]
 
 # properties whose check is planned but not finished: not claimed, and listed in not_applicable with that reason
-NOT_CLAIMED_YET = ["C19"]
+NOT_CLAIMED_YET = []
 for _p in NOT_CLAIMED_YET:
     NOT_APPLICABLE.append({"property_id": _p, "reason": "not claimed yet: the simulation check for this property is designed (DESIGN.md section 4) but not finished; it is applicable to the technique and will be claimed when its check passes the determinism and sensitivity gates"})
